@@ -11,6 +11,9 @@ func (k Keeper) SetStakedValidator(ctx sdk.Ctx, validator types.Validator) {
 	if validator.Jailed {
 		return // jailed validators are not kept in the power index
 	}
+	if !validator.IsStaked() {
+		return // neither are unstaking or unstaked validators: they have no consensus power
+	}
 	store := ctx.KVStore(k.storeKey)
 	store.Set(types.KeyForValidatorInStakingSet(validator), validator.Address)
 }
